@@ -40,9 +40,13 @@ def run_api(chk, prop, variants, san="asan", nshards=16, extra_args=None, stall_
             if c.get("kind") == "harness" or "harness-bug@" in str(c.get("key")):
                 raise HarnessFailure("harness failure in %s: %s" % (prop, (c.get("stderr") or "")[-2000:]))
             dj = _j(c.get("desc"))
-            if prop == "C12" and c["kind"] == "deadlock" and isinstance(dj, dict) and dj.get("verify_result") is True:
-                chk.add_violation("C12|disagree|verify=1|decrypt-hangs|%s" % dj.get("kind", "?"),
-                                  "verification accepted a file on which decryption never returns", variant=vtag, case=c.get("idx"), case_desc=dj)
+            if prop == "C12" and c["kind"] in ("deadlock", "crash", "cpu-loop") and isinstance(dj, dict) and dj.get("verify_result") is True:
+                # verification has ACCEPTED this file (recorded before decryption started) and decryption of the same
+                # file with the same key did not succeed: it died or never returned
+                how = "decrypt-hangs" if c["kind"] != "crash" else "decrypt-dies"
+                chk.add_violation("C12|disagree|verify=1|%s|%s" % (how, dj.get("kind", "?")),
+                                  "verification accepted a file on which decryption %s" % ("never returns" if c["kind"] != "crash" else "dies (%s)" % c["key"]),
+                                  variant=vtag, case=c.get("idx"), case_desc=dj, stderr=c.get("alone_stderr") or c.get("batch_stderr"))
                 continue
             if not crash_is_violation:
                 # a crash / hang is outside this property's statement (it belongs to C11 / C04): the case is
